@@ -104,7 +104,13 @@ def expand(ob, tier):
         pts = json.load(open(os.path.join(HERE, 'contracts', 'grids.json')))[g]
         out = []
         for pt in pts:
-            if tier == 'quick' and not pt.get('quick'):
+            if tier == 'quick':
+                if ob.opts.get('quickgrid'):
+                    if pt['name'] not in ob.opts['quickgrid'].split('+'):
+                        continue
+                elif not pt.get('quick'):
+                    continue
+            if ob.opts.get('gridskip') and pt['name'] in ob.opts['gridskip'].split('+'):
                 continue
             if ob.opts.get('gridonly') and pt['name'] not in ob.opts['gridonly'].split('+'):
                 continue
@@ -237,6 +243,10 @@ def run_ob(u, ob, inst, extra_defs, tier, use_cache=True, want_trace=True, reach
     cmds = [cmd1]
     if rc != 0:
         return dict(base, status='error', reason='goto-cc failed: ' + (se or so)[-1500:], wall_s=time.time() - t0, cmds=cmds)
+    if 'is not declared' in (se + so):
+        m = re.search(r"function '(\w+)' is not declared", se + so)
+        return dict(base, status='error', reason='implicit declaration of %s in the lowered unit (missing prototype / callee not lowered)' % (m.group(1) if m else '?'),
+                    wall_s=time.time() - t0, cmds=cmds)
     dfcc = o.get('enforce') or o.get('replace') or ('loops' in ob.flags)
     if dfcc:
         gi = ['goto-instrument', '--dfcc', entry]
